@@ -25,6 +25,7 @@ func init() {
 func runC13(p *eng.Prog, r *eng.Report, tier string) {
 	c := &cx{p, r, tier}
 	c11SplitString(c, "C13.33")
+	c11EncodersEmitString(c, "C13.35")
 	c13ErrorIsDirectChild(c, "C13.34")
 	// ---- C13.10 encoders emit field values verbatim --------------------------------
 	nLossy := lossyEmission(c, "C13.10", func(f *eng.Fn) bool { return strings.HasPrefix(f.Short, "stanza.") })
